@@ -64,7 +64,7 @@ TIERS = {
     "quick": {"shards": 8, "budget_s": 22},
     "thorough": {"shards": 16, "budget_s": 300},
 }
-MIN_EVENTS = {"quick": 3000, "thorough": 30000}
+MIN_EVENTS = {"quick": 5000, "thorough": 60000}
 DECIDING = {"aggregate", "disaggregate", "arip", "roundtrip"}
 EXHAUSTIVE = {"quick": False, "thorough": False}
 RULE = (
